@@ -64,6 +64,15 @@ REGION_GLOB = "*.region???.gbk"
 
 # --------------------------------------------------------------------------- scratch helpers
 
+def _scratch() -> str:
+    """ one private directory per case (tempfile.mkdtemp, removed by the caller in `finally`); placed on
+        the memory file system when there is one, because a case is dominated by mkdir/rmdir calls """
+    base = "/dev/shm"
+    if os.path.isdir(base) and os.access(base, os.W_OK | os.X_OK):
+        return tempfile.mkdtemp(prefix="verif_c20_", dir=base)
+    return tempfile.mkdtemp(prefix="verif_c20_")
+
+
 def _snapshot(root: str) -> dict:
     """ recursive listing: relative path -> 'dir' | 'file:<sha1>' | 'link:<target>' """
     out = {}
@@ -271,7 +280,7 @@ def check_write(spec: dict) -> dict:
     """ spec: target, R, M, faults [{where: module|record|top, r, m, kind}], old (hex), rich """
     old = bytes.fromhex(spec["old"])
     faults = _effective_faults(spec)
-    scratch = tempfile.mkdtemp(prefix="verif_c20_")
+    scratch = _scratch()
     try:
         path = os.path.join(scratch, "out", "genome.json")
         _write_bytes(path, old)
@@ -492,10 +501,18 @@ def _classify(spec: dict) -> dict:
     return {"exempt": exempt, "other": other, "removable": removable}
 
 
+_PARSER: list = []
+
+
 def _configure(args: list) -> Any:
+    """ a fresh Config from command line arguments, as __main__ builds it (the argument parser itself is
+        built once per process: constructing it costs more than the code under test) """
     from antismash.config import build_config, destroy_config
+    from antismash.config.args import build_parser
+    if not _PARSER:
+        _PARSER.append(build_parser(from_config_file=True))
     destroy_config()
-    return build_config(args, isolated=True)
+    return build_config(args, parser=_PARSER[0], isolated=True)
 
 
 def check_dir(spec: dict) -> dict:
@@ -503,7 +520,7 @@ def check_dir(spec: dict) -> dict:
         entries [{p, t: f|d|l, d}], logfile None|'in:NAME'|'out:NAME', cwd None|<top-level dir>, ext """
     from antismash.config import destroy_config
     from antismash.main import prepare_output_directory
-    scratch = tempfile.mkdtemp(prefix="verif_c20_")
+    scratch = _scratch()
     previous_cwd = os.getcwd()
     views = _classify(spec) if spec.get("exists", "dir") == "dir" else {"exempt": [], "other": [], "removable": []}
     try:
@@ -732,7 +749,7 @@ def check_pipeline(spec: dict) -> dict:
     views = _classify(dspec) if dspec["exists"] == "dir" else {"exempt": [], "other": [], "removable": []}
     must_refuse = mode == "fresh" and bool(views["other"])
 
-    scratch = tempfile.mkdtemp(prefix="verif_c20_")
+    scratch = _scratch()
     previous_cwd = os.getcwd()
     calls: list = []
     try:
